@@ -4,4 +4,6 @@ from . import cfgmachine
 
 
 def run(tier, seed):
-    return cfgmachine.run_machine("C12", ["C12_Fresh"], ["C12_Marks", "C12_Reset"], tier, seed)
+    out = cfgmachine.run_machine("C12", ["C12_Fresh"], ["C12_Marks", "C12_Reset"], tier, seed)
+    # second instance: the textual / numeric field classes inside a configuration
+    return cfgmachine.merge(out, cfgmachine.run_machine("C12", ["C12_Fresh"], ["C12_Marks", "C12_Reset"], tier, seed + 7, schema="SchemaB"))
